@@ -94,7 +94,20 @@ func parseAudioMeta(m *sdp.Format, audio *codec.AudioMeta) {
 
 			// audio.SetParameterSet(aac.ParameterSetConfig, config)
 			audio.Sps = config
-			_ = aac.MetadataIsReady(audio)
+			// the config says how many channels the stream has (rtpmap may omit them);
+			// a clock rate given by rtpmap stays the sample rate, it is the RTP clock
+			var asc aac.AudioSpecificConfig
+			if asc.Decode(config) == nil {
+				if asc.Channels > 0 {
+					audio.Channels = int(asc.Channels)
+				}
+				if m.ClockRate <= 0 && asc.SampleRate > 0 {
+					audio.SampleRate = asc.SampleRate
+					if asc.ExtSampleRate > 0 {
+						audio.SampleRate = asc.ExtSampleRate
+					}
+				}
+			}
 			break
 		}
 	}
